@@ -2,7 +2,7 @@ import Neutrino.Props.C17
 open Neutrino.Shutdown
 #print axioms C17_sites_partial
 #print axioms C17_sites_counterexample
-#print axioms C17_sites_statement_false
+#print axioms C17_sites
 #print axioms C17_rule_counts
 #print axioms C17_stop_order
 #print axioms C17_close_before_wait
